@@ -132,7 +132,7 @@ def obligations_rule(ctx, facts, cfg, keep_instates=False):
             for regions, site, kind, detail in pres[:3]:
                 ctx.violation(rid + '-entry', root, 'precondition:%s@%s' % (kind, site.split(' <= ')[0].split('@')[0].split('::')[-1]),
                               '%s is only panic-free under a precondition on its arguments (%s %s at %s): it must be total for every buffer and offset'
-                              % (root, kind, detail[:80], site.split(' <= ')[0]), site=site.split(' <= ')[0].split(':', 1)[-1], config=cfg)
+                              % (root, kind, detail[:80], site.split(' <= ')[0]), site=site.split(' <= ')[0].split('@')[-1].split(':', 1)[-1], config=cfg)
         else:
             cases = e4.invariant_cases(S, root)
             bad = []
@@ -144,7 +144,7 @@ def obligations_rule(ctx, facts, cfg, keep_instates=False):
             for site, kind, detail in bad[:3]:
                 ctx.violation(rid + '-entry', root, 'beyond-invariant:%s@%s' % (kind, site.split(' <= ')[0].split('@')[0].split('::')[-1]),
                               '%s can panic (%s %s at %s) for an object that satisfies the struct invariant offset <= len /\\ (edns_end = None \\/ offset <= edns_end <= len)'
-                              % (root, kind, detail[:80], site.split(' <= ')[0]), site=site.split(' <= ')[0].split(':', 1)[-1], config=cfg)
+                              % (root, kind, detail[:80], site.split(' <= ')[0]), site=site.split(' <= ')[0].split('@')[-1].split(':', 1)[-1], config=cfg)
     if len(obs) < 120:
         ctx.violation(rid, '<floor>', 'obligations', 'only %d obligations were generated in the validator scope, expected about 175' % len(obs), kind='below-floor')
     ctx.sample({'rule': rid, 'config': cfg, 'obligations': len(obs), 'status': dict(cnt), 'seconds': e4.times})
